@@ -197,7 +197,16 @@ func genFunction(prog *ssa.Program, cs *Contracts, fn *ssa.Function, fc *FuncCon
 	o := c.oblige(st0, "cover", "requires-sat", nil, tTrue, fn.Pos(), "the precondition is satisfiable (vacuity guard)")
 	o.ExpectSat = true
 	c.writeLog = nil
+	if fc.StructuralOnly {
+		// only the syntactic frame obligations: the body is outside the subset
+		// (or too large) for the symbolic executor
+		c.note("only the structural (frame) obligations of " + fn.String() + " are generated; its arithmetic is not under contract")
+		fr.structuralChecks()
+		rep.Obls = c.obls
+		return rep
+	}
 	rst, vals := fr.run(st0)
+	fr.structuralChecks()
 	if rst != nil {
 		envE := &Env{c: c, fr: fr, st: rst, old: fr.old, names: copyMap(env0), oldNames: env0}
 		// locals (e.g. closures) may be named in postconditions: resolved at the
@@ -206,6 +215,7 @@ func genFunction(prog *ssa.Program, cs *Contracts, fn *ssa.Function, fc *FuncCon
 			if _, ok := fn.Blocks[bi].Instrs[len(fn.Blocks[bi].Instrs)-1].(*ssa.Return); ok {
 				envE.blk = fn.Blocks[bi]
 				envE.atLatch = true
+				envE.namesFirst = true
 				break
 			}
 		}
@@ -438,6 +448,14 @@ func (o *Obligation) queryVariant(dropQuantified bool) string {
 
 func discharge(o *Obligation, outDir string, timeoutS int) *OblResult {
 	r := &OblResult{O: o}
+	if o.Structural {
+		r.Solver = "frame-checker"
+		r.Status = "discharged"
+		if o.Goal.S != "true" {
+			r.Status = "failed"
+		}
+		return r
+	}
 	if o.Goal.S == "true" && !o.ExpectSat {
 		r.Status = "discharged"
 		r.Solver = "trivial"
